@@ -24,6 +24,7 @@ func init() {
 var (
 	c19pChained   = sim.RegStat("probe:c19-next-read-started-from-inside-the-completion")
 	c19pChainedW  = sim.RegStat("probe:c19-next-write-started-from-inside-the-completion")
+	c19pBlockSync = sim.RegStat("probe:c19-would-block-inside-item-blocking-write")
 	c19pCutPrefix = sim.RegStat("probe:c19-cut-inside-length-prefix")
 	c19pBlockW    = sim.RegStat("probe:c19-would-block-inside-item-write")
 	c19pHostile   = sim.RegStat("probe:c19-hostile-input")
@@ -314,7 +315,8 @@ func runC19(c *Ctx, variant int) {
 		d.compare(fmt.Sprintf("actor->sonic async=%v cuts=%v", async, cuts), items, got, rerr)
 	case 1: // sonic writes, an independent parser reads the wire
 		w.TCPSndCap = w.Pick(1<<20, 7, 64, 4096)
-		if !async {
+		syncWouldBlock := !async && variant < 0 && w.Chance(1, 2)
+		if !async && !syncWouldBlock {
 			w.TCPSndCap = 1 << 22 // a blocking WriteNext cannot wait for writability
 		}
 		al := w.K.ActorListen(loopIP, port, sim.ConnAccept)
@@ -382,12 +384,34 @@ func runC19(c *Ctx, variant int) {
 					c.Failf("write-failed", "AsyncWriteNext of item %d (%d bytes) failed on a healthy connection: %v", i, len(p), werr)
 				}
 			} else {
-				if _, werr := cc.WriteNext(p); werr != nil {
+				_, werr := cc.WriteNext(p)
+				if werr != nil && syncWouldBlock && errors.Is(werr, sonicerrors.ErrWouldBlock) {
+					// the send buffer filled up, possibly in the middle of the item: what was not sent stays queued in
+					// the destination buffer and goes out in front of the next item (the item is not submitted again)
+					w.Stat(c19pBlockSync)
+					for k := 0; k < 3; k++ {
+						d.pump()
+					}
+					continue
+				}
+				if werr != nil {
 					c.Failf("write-failed", "WriteNext of item %d (%d bytes) failed on a healthy connection: %v", i, len(p), werr)
 				}
 			}
 			if dst.ReadLen() != 0 || dst.WriteLen() != 0 {
 				c.Failf("item-left-behind-after-write", "after the write of item %d (%d bytes) completed successfully the destination buffer still holds %d readable and %d uncommitted bytes", i, len(p), dst.ReadLen(), dst.WriteLen())
+			}
+		}
+		if syncWouldBlock {
+			// flush what a would-block left queued
+			for k := 0; dst.ReadLen() > 0; k++ {
+				if k > 100000 {
+					c.Failf("write-never-completes", "the bytes a would-block left queued (%d) cannot be flushed although the peer keeps reading", dst.ReadLen())
+				}
+				if _, ferr := dst.WriteTo(conn); ferr != nil && !errors.Is(ferr, sonicerrors.ErrWouldBlock) {
+					c.Failf("write-failed", "flushing the destination buffer failed on a healthy connection: %v", ferr)
+				}
+				d.pump()
 			}
 		}
 		for k := 0; k < 50 && (w.K.EndOf(conn.RawFd()).InFlight() || k < 3); k++ {
